@@ -247,7 +247,11 @@ contract(Contract(
     params={"element": "ref:Element"},
     self_cls="MarkdownNormalizer",
     setup=self_setup,
-    calls={"self.render_children": render_child("RENDER_CHILDREN")},
+    # (the current body does not look at the children; their list is modelled so that a body that decides by them is judged --
+    # every nesting of emphasis gets its own delimiters -- instead of being rejected)
+    calls={"self.render_children": render_child("RENDER_CHILDREN"),
+           "Element.children": Callee("attr", ret="list[ref:Element]")},
+    unknown_calls="effect",
     ensures={"delimiters": "result == '*' + logres('RENDER_CHILDREN') + '*'"},
 ))
 
@@ -257,6 +261,10 @@ contract(Contract(
     params={"element": "ref:Element"},
     self_cls="MarkdownNormalizer",
     setup=self_setup,
-    calls={"self.render_children": render_child("RENDER_CHILDREN")},
+    # (the current body does not look at the children; their list is modelled so that a body that decides by them is judged --
+    # every nesting of emphasis gets its own delimiters -- instead of being rejected)
+    calls={"self.render_children": render_child("RENDER_CHILDREN"),
+           "Element.children": Callee("attr", ret="list[ref:Element]")},
+    unknown_calls="effect",
     ensures={"delimiters": "result == '**' + logres('RENDER_CHILDREN') + '**'"},
 ))
